@@ -78,7 +78,8 @@ func c02AgentMain(path string) {
 // (a request ends with a flush packet).  A `quit` request is answered with status 200 and the peer exits; when the
 // requests outnumber the blobs the peer exits (EOF).
 type c02PeerScript struct {
-	Blobs []string `json:"blobs"`
+	Blobs     []string `json:"blobs"`
+	ExitAfter int      `json:"exit_after"` // exit right after writing Blobs[ExitAfter] (-1: never)
 }
 
 func c02PeerMain(path string) {
@@ -133,7 +134,7 @@ func c02PeerMain(path string) {
 			os.Stdout.Write([]byte(c02Pkt("status 200\n") + "0000"))
 			return
 		}
-		if !write(i) {
+		if !write(i) || i == sc.ExitAfter {
 			return
 		}
 	}
@@ -399,8 +400,8 @@ func (h *c02H) runStandalone(x *vx.X) vx.Result {
 
 type c02SSHAns struct {
 	Name string
-	Raw  string // "" and EOF=true: peer exits instead of answering
-	EOF  bool
+	Raw  string
+	EOF  bool // the peer exits (EOF on its stdout) right after writing Raw
 }
 
 func c02SSHData(class string) []byte {
@@ -478,12 +479,12 @@ func c02SSHAnswers() []c02SSHAns {
 		c02SSHAns{Name: "proto:no-delimiter-before-flush", Raw: ok + c02Flush},
 		c02SSHAns{Name: "proto:data-without-delimiter", Raw: ok + c02Pkt(string(c02Obj)) + c02Flush},
 		c02SSHAns{Name: "proto:eof-instead-of-answer", EOF: true},
-		c02SSHAns{Name: "proto:eof-after-status", Raw: ok},
-		c02SSHAns{Name: "proto:eof-after-delimiter", Raw: ok + c02Delim},
-		c02SSHAns{Name: "proto:eof-mid-data-packet", Raw: ok + c02Delim + "0010" + "012345"},
-		c02SSHAns{Name: "proto:eof-after-half-the-data", Raw: ok + c02Delim + c02Pkt("012345")},
-		c02SSHAns{Name: "proto:eof-after-all-data-no-flush", Raw: ok + c02Delim + c02Pkt(string(c02Obj))},
-		c02SSHAns{Name: "proto:bad-packet-length", Raw: ok + c02Delim + "zzzz" + string(c02Obj) + c02Flush},
+		c02SSHAns{Name: "proto:eof-after-status", Raw: ok, EOF: true},
+		c02SSHAns{Name: "proto:eof-after-delimiter", Raw: ok + c02Delim, EOF: true},
+		c02SSHAns{Name: "proto:eof-mid-data-packet", Raw: ok + c02Delim + "0010" + "012345", EOF: true},
+		c02SSHAns{Name: "proto:eof-after-half-the-data", Raw: ok + c02Delim + c02Pkt("012345"), EOF: true},
+		c02SSHAns{Name: "proto:eof-after-all-data-no-flush", Raw: ok + c02Delim + c02Pkt(string(c02Obj)), EOF: true},
+		c02SSHAns{Name: "proto:bad-packet-length", Raw: ok + c02Delim + "zzzz" + string(c02Obj) + c02Flush, EOF: true},
 		c02SSHAns{Name: "proto:delimiter-inside-data", Raw: ok + c02Delim + c02Pkt("012345") + c02Delim + c02Pkt("6789ab") + c02Flush},
 	)
 	return out
@@ -509,7 +510,7 @@ func (h *c02H) runSSH(x *vx.X) vx.Result {
 	defer cs.cleanup()
 	cs.install(c02PartStates[0], fstate)
 
-	ps := c02PeerScript{}
+	ps := c02PeerScript{ExitAfter: -1}
 	desc := []string{"hello:" + hello.Name}
 	if hello.Caps != "" {
 		ps.Blobs = append(ps.Blobs, hex.EncodeToString([]byte(hello.Caps)))
@@ -521,8 +522,10 @@ func (h *c02H) runSSH(x *vx.X) vx.Result {
 	if hi == 0 {
 		a := answers[x.In(len(answers))]
 		desc = append(desc, a.Name)
-		if !a.EOF {
-			ps.Blobs = append(ps.Blobs, hex.EncodeToString([]byte(a.Raw)))
+		ps.Blobs = append(ps.Blobs, hex.EncodeToString([]byte(a.Raw)))
+		if a.EOF {
+			ps.ExitAfter = len(ps.Blobs) - 1
+		} else {
 			// a second download of the same object on the same connection, answered nominally: shows what a
 			// de-synchronised stream left behind by the first answer does to the next transfer
 			two = true
